@@ -64,12 +64,12 @@ MENU = {
     'png': COMMON + DARK + LIGHT + TRANS + MODCOL + [({'dpi': 300}, ['--dpi', '300'])],
     'eps': COMMON + DARK + LIGHT,
     'pdf': COMMON + DARK + LIGHT,
-    'txt': COMMON[2:] + [({'dark': '#'}, ['--dark=#']), ({'light': '.'}, ['--light', '.'])],
+    'txt': COMMON[2:] + [({'dark': '#'}, ['--dark=#']), ({'light': '.'}, ['--light', '.']), ({'dark': 'X', 'light': 'O'}, ['--dark', 'X', '--light', 'O'])],
     'ans': COMMON[2:],
     'pbm': COMMON,
     'pam': COMMON + DARK + LIGHT + TRANS[:1],
     'ppm': COMMON + DARK + LIGHT + MODCOL[:3],
-    'tex': COMMON + [({'dark': 'blue'}, ['--dark', 'blue']), ({'unit': 'mm'}, ['--unit', 'mm'])],
+    'tex': COMMON + [({'dark': 'blue'}, ['--dark', 'blue']), ({'unit': 'mm'}, ['--unit', 'mm']), ({'dark': 'RoyalBlue'}, ['--dark', 'RoyalBlue'])],
     'xbm': COMMON,
     'xpm': COMMON + DARK + LIGHT + TRANS,
 }
@@ -78,7 +78,10 @@ SYMBOLS = {
     'M2': ('12345', ['--version', 'M2'], dict(version='M2')),
     '1L': ('HELLO', ['--error', 'L', '--no-error-boost'], dict(error='L', boost_error=False)),
     '7H': ('Structured text for version seven, level H', ['-v', '7', '-e', 'h'], dict(version=7, error='H')),
+    '1M0': ('HELLO WORLD', ['--error', 'M', '--pattern', '0'], dict(error='M', mask=0)),
+    'uL': ('12345', ['--micro', '-e', 'L'], dict(micro=True, error='L')),
 }
+CORE_SYMBOLS = ('M2', '1L', '7H')
 SEQ = ('ABCDEFGHIJKLMNOPQRSTUVWXYZ0123456789ABCDEFGHIJKLMNOPQRSTUVWXYZ', ['--seq', '--version', '1', '--error', 'M'], dict(version=1, error='M'))
 
 
@@ -95,7 +98,7 @@ def gen_cases(tier):
     k = 2 if tier == 'quick' else 3
     for sym in SYMBOLS:
         for kind, menu in MENU.items():
-            combos = list(subsets(menu, k))
+            combos = list(subsets(menu, k if sym in CORE_SYMBOLS else 1))
             for i in range(0, len(combos), 25):
                 yield ('routes', sym, kind, combos[i:i + 25])
     for kind in MENU:
@@ -109,9 +112,11 @@ def gen_cases(tier):
 
 def api_symbol(sym):
     content, argv, kw = SYMBOLS[sym]
+    kw = dict(kw)
     version = kw.get('version')
-    micro = None if isinstance(version, str) else False        # the command line tool's default is --no-micro
-    return segno.make(content, micro=micro, **kw)
+    if 'micro' not in kw:
+        kw['micro'] = None if isinstance(version, str) else False        # the command line tool's default is --no-micro
+    return segno.make(content, **kw)
 
 
 def read_file(path):
@@ -280,13 +285,14 @@ def seq_case(kind, acc, tmp):
     if kind in ('txt', 'ans'):
         variants[1] = ({'border': 1}, ['--border', '1'])
     for opts, flags in variants:
-        d = tempfile.mkdtemp(dir=tmp)
-        seq.save(os.path.join(d, 'name.' + kind), **opts)
+        base = 'name' if not opts else 'na.me.v2'
+        d = tempfile.mkdtemp(dir=tmp, suffix='.d' if opts else '')
+        seq.save(os.path.join(d, base + '.' + kind), **opts)
         names = sorted(os.listdir(d))
-        want = ['name-%02d-%02d.%s' % (n, i, kind) for i in range(1, n + 1)]
+        want = ['%s-%02d-%02d.%s' % (base, n, i, kind) for i in range(1, n + 1)]
         acc.eval(('seq', kind, tuple(opts)), nontrivial=True, outcome=(names == want), state=('seq', kind, tuple(opts)))
         if names != want or n < 2:
-            acc.violation('sequence-file-names', 'sequence of %d symbols saved to name.%s wrote %r, expected %r' % (n, kind, names, want), case)
+            acc.violation('sequence-file-names', 'sequence of %d symbols saved to %s.%s wrote %r, expected %r' % (n, base, kind, names, want), case)
             continue
         for i, qr in enumerate(seq, start=1):
             s = stream_for(real)
@@ -299,7 +305,7 @@ def seq_case(kind, acc, tmp):
         # the command line tool
         d2 = tempfile.mkdtemp(dir=tmp)
         try:
-            rc = cli.main(argv + flags + ['-o', os.path.join(d2, 'name.' + kind), content])
+            rc = cli.main(argv + flags + ['-o', os.path.join(d2, base + '.' + kind), content])
         except SystemExit as e:
             rc = e.code
         names2 = sorted(os.listdir(d2))
